@@ -134,7 +134,8 @@ pub struct Findings {
 
 #[derive(Default)]
 pub struct Obs {
-    pub nontrivial: Option<u64>,
+    /// hashes of the distinct non-trivial cases this oracle call covered (usually 0 or 1)
+    pub nontrivial: Vec<u64>,
     pub classes: Vec<&'static str>,
     pub want_sample: bool,
     pub sample: Option<J>,
@@ -144,7 +145,10 @@ pub struct Obs {
 
 impl Obs {
     pub fn nt<H: Hash + ?Sized>(&mut self, key: &H) {
-        self.nontrivial = Some(hash_of(key));
+        let h = hash_of(key);
+        if !self.nontrivial.contains(&h) {
+            self.nontrivial.push(h);
+        }
     }
     pub fn class(&mut self, c: &'static str) {
         self.classes.push(c);
@@ -468,9 +472,7 @@ impl Ctx {
                         if !failed.get() {
                             let mut a = acc.borrow_mut();
                             a.evals += 1 + obs.extra_evals;
-                            if let Some(h) = obs.nontrivial {
-                                a.nts.push(h);
-                            }
+                            a.nts.append(&mut obs.nontrivial);
                             for c in obs.classes.drain(..) {
                                 *a.classes.entry(c).or_insert(0) += 1;
                             }
@@ -599,9 +601,7 @@ impl Ctx {
                             Err(p) => Err(Failure::new(format!("harness-or-engine panic: {}", p.site()), p.what.clone())),
                         };
                         evals += 1 + obs.extra_evals;
-                        if let Some(h) = obs.nontrivial {
-                            nts.push(h);
-                        }
+                        nts.append(&mut obs.nontrivial);
                         for c in obs.classes.drain(..) {
                             *classes.entry(c).or_insert(0) += 1;
                         }
@@ -660,7 +660,7 @@ impl Ctx {
             Ok(r) => r,
             Err(p) => Err(Failure::new(format!("harness-or-engine panic: {}", p.site()), p.what.clone())),
         };
-        self.account(sub, 1, obs.nontrivial.into_iter().collect(), BTreeMap::new(), vec![case.clone()]);
+        self.account(sub, 1, obs.nontrivial.clone(), BTreeMap::new(), vec![case.clone()]);
         if let Err(f) = r {
             if self.judge(sub, &f) {
                 println!("REPLAY-FAIL sub={sub} sig={} detail={}", f.sig, f.detail);
